@@ -25,34 +25,40 @@ type finding struct {
 }
 
 func loadKnown() (find []finding, err error) {
-	b, err := os.ReadFile(filepath.Join(VerifRoot, "known-findings.txt"))
-	if err != nil {
-		if os.IsNotExist(err) {
-			return nil, nil
+	files := []string{filepath.Join(VerifRoot, "known-findings.txt")}
+	more, _ := filepath.Glob(filepath.Join(VerifRoot, "known-findings.d", "*.txt"))
+	sort.Strings(more)
+	files = append(files, more...)
+	for _, fn := range files {
+		b, err := os.ReadFile(fn)
+		if err != nil {
+			if os.IsNotExist(err) {
+				continue
+			}
+			return nil, err
 		}
-		return nil, err
-	}
-	for _, ln := range strings.Split(string(b), "\n") {
-		ln = strings.TrimSpace(ln)
-		if !strings.HasPrefix(ln, "finding:") {
-			continue // "fixed:" lines and comments suppress nothing
+		for _, ln := range strings.Split(string(b), "\n") {
+			ln = strings.TrimSpace(ln)
+			if !strings.HasPrefix(ln, "finding:") {
+				continue // "fixed:" lines and comments suppress nothing
+			}
+			rest := strings.TrimSpace(strings.TrimPrefix(ln, "finding:"))
+			// property=<id> sig=<signature> :: <what>
+			parts := strings.SplitN(rest, " :: ", 2)
+			what := ""
+			if len(parts) == 2 {
+				what = parts[1]
+			}
+			hd := parts[0]
+			if !strings.HasPrefix(hd, "property=") {
+				continue
+			}
+			sp := strings.SplitN(hd, " sig=", 2)
+			if len(sp) != 2 {
+				continue
+			}
+			find = append(find, finding{prop: strings.TrimPrefix(sp[0], "property="), sig: strings.TrimSpace(sp[1]), what: what})
 		}
-		rest := strings.TrimSpace(strings.TrimPrefix(ln, "finding:"))
-		// property=<id> sig=<signature> :: <what>
-		parts := strings.SplitN(rest, " :: ", 2)
-		what := ""
-		if len(parts) == 2 {
-			what = parts[1]
-		}
-		hd := parts[0]
-		if !strings.HasPrefix(hd, "property=") {
-			continue
-		}
-		sp := strings.SplitN(hd, " sig=", 2)
-		if len(sp) != 2 {
-			continue
-		}
-		find = append(find, finding{prop: strings.TrimPrefix(sp[0], "property="), sig: strings.TrimSpace(sp[1]), what: what})
 	}
 	return
 }
